@@ -1088,6 +1088,8 @@ def run(ctx, tier):
     results += index_agreement(ctx)
     results += key_order(ctx)
     results += keys_as_bytes(ctx)
+    import c05
+    results += c05.no_narrowing(ctx, rule='C08.no-narrowing')
     results += iterator_overrides(ctx)
     import c01
     results += c01.carriers(ctx, rule='C08.carriers')
